@@ -29,7 +29,24 @@ def gen_prog(r, shards, ordered, avail, force=None):
     return c12.gen_prog(r, shards, ordered, avail)
 
 
+def directed():
+    """a run over results that depend on each other along paths of different lengths, started together with unrelated runs that
+    keep the machines which already know those results busy: its tasks land on fresh machines, which must be told about the
+    results' invocations in dependency order"""
+    rows = "1:1 2:2 3:3 4:4 5:5"
+    busy = "run N0=lines 2 2000 ; N1=map N0 mod5 ; N2=reduce N1 add ; OUT N2"
+    for cfg in ("bm M1 P2", "bm M1 P3", "bm M1 P4", "bm M2 P4"):
+        for depth in (2, 3):
+            chain = ["run N0=const 1 %s ; OUT N0" % rows] + ["run N0=map R%d inc ; OUT N0" % d for d in range(depth)]
+            for final in ("run N0=cogroup R0 R%d ; N1=reduce N0 add ; OUT N1" % depth,
+                          "run N0=map R%d id ; N1=map R0 id ; N2=cogroup N0 N1 ; OUT N2" % depth):
+                for nbusy in (1, 2):
+                    yield "%s GMP4 ;; %s ;; %s" % (cfg, " ;; ".join(chain), " || ".join([busy] * nbusy + [final]))
+
+
 def gen(r, tier):
+    for c in directed():
+        yield c
     n = 150 if tier == "quick" else 3000
     for _ in range(n):
         cfg = "%s CH%d GMP%d" % (r.choice(CONFIGS), r.choice([2, 128, 128]), r.choice([1, 2, 4, 16]))
